@@ -31,7 +31,9 @@ Inductive skel :=
 | KJump (k : jump)         (* continue / break / return / raise *)
 | KIf (t : test) (a b : skel)
 | KLoop (i : nat) (body : skel)            (* for-loop: the iteration count is fixed by the program state at entry *)
-| KTry (body handler els : skel).          (* handler = the except clauses as an if-chain ending in a re-raise *)
+| KTry (body handler els : skel)           (* handler = the except clauses as an if-chain ending in a re-raise *)
+| KCall (callee : skel).                   (* call of a function of the module that itself mentions a module-level mutable
+                                              object (the arguments are evaluated before: KEff): the callee's skeleton, inlined *)
 
 Inductive status := Normal | Jumped (k : jump).
 
@@ -83,6 +85,12 @@ Section Semantics.
         | (s1, g1, Jumped JRaise) => run handler s1 g1
         | r => r
         end
+    | KCall c =>
+        (* `return` ends the callee, an exception propagates; continue / break cannot leave a function body *)
+        match run c s g with
+        | (s1, g1, Jumped JRaise) => (s1, g1, Jumped JRaise)
+        | (s1, g1, _) => (s1, g1, Normal)
+        end
     end.
 
   (** What a caller can observe of the program: its state and how control left it - not [G]. *)
@@ -97,13 +105,17 @@ Section Semantics.
     end.
 End Semantics.
 
-(** Only logging and updates of the global object (and decisions between such). *)
-Fixpoint quiet (p : skel) : bool :=
+(** Only logging and updates of the global object (and decisions between such); [ret]: a bare `return` is allowed
+    (the body of a helper such as `def _warn_once(..): if k in SEEN: return; log; SEEN.add(k)`). *)
+Fixpoint quiet_gen (ret : bool) (p : skel) : bool :=
   match p with
   | KNil | KLog | KUpd _ => true
-  | KSeq a b | KIf _ a b => quiet a && quiet b
+  | KJump JReturn => ret
+  | KSeq a b | KIf _ a b => quiet_gen ret a && quiet_gen ret b
+  | KCall c => quiet_gen true c
   | _ => false
   end.
+Definition quiet := quiet_gen false.
 
 (** Every decision on process-global state guards quiet code only; nothing else reads it. *)
 Fixpoint gates_ok (p : skel) : bool :=
@@ -115,7 +127,11 @@ Fixpoint gates_ok (p : skel) : bool :=
   | KIf (TGlobal _) a b => quiet a && quiet b
   | KLoop _ b => gates_ok b
   | KTry a b c => gates_ok a && gates_ok b && gates_ok c
+  | KCall c => gates_ok c || quiet_gen true c     (* `if k in SEEN: return` is fine in a helper that only logs *)
   end.
+
+(** A function of the module, seen from its callers. *)
+Definition fn_ok (body : skel) : bool := gates_ok (KCall body).
 
 (** Census helpers for the evidence: how many decisions read the global state. *)
 Fixpoint global_tests (p : skel) : nat :=
@@ -125,5 +141,6 @@ Fixpoint global_tests (p : skel) : nat :=
   | KIf (TOther _) a b => global_tests a + global_tests b
   | KLoop _ b => global_tests b
   | KTry a b c => global_tests a + global_tests b + global_tests c
+  | KCall c => global_tests c
   | _ => 0
   end.
